@@ -123,6 +123,22 @@ let stmt st toks =
       let (m1, r) = get (str_replace_re st.m s1 a s2) in st.m <- m1; word_show r ^ " " ^ b (goodwb r)
   | "replreall" -> let (a, _) = term st c in let s1 = cword c in let s2 = cword c in
       let (m1, r) = get (str_replace_re_all st.m s1 a s2) in st.m <- m1; word_show r ^ " " ^ b (goodwb r)
+  | "ctorstr" -> let kind = next c in let xs = cword c in
+      let is_char x = let x = int_of_n x in (x < 0xD800 || x > 0xDFFF) && x <= 0x10FFFF in
+      let w = match kind with
+        | "str" | "string" -> from_str (List.filter is_char xs)
+        | "char" -> from_char (List.hd xs)
+        | "u32" -> from_u32 (List.hd xs)
+        | "slice" -> from_slice xs
+        | "vec" -> from_vec xs
+        | "parse" -> get (parse_smt_literal (List.filter is_char xs))
+        | _ -> failwith "bad kind" in
+      let (m1, r) = get (mstr st.m w) in st.m <- m1;
+      let (m2, mem) = get (str_in_re st.m w r) in st.m <- m2;
+      st.v <- (r, PStr w) :: st.v; st.n <- st.n + 1;
+      let ascii = List.for_all (fun x -> let x = int_of_n x in x >= 32 && x < 127) (smt_display w) in
+      Printf.sprintf "word=%s good=%s re=%s mem=%s ascii=%s" (String.concat "," (string_of_int (List.length w) :: List.map sn w))
+        (b (goodwb w)) (dump r) (b mem) (b ascii)
   | "compile" -> let (a, _) = term st c in
       (match get (compile_with_bound fuel st.m a None) with
        | (m1, Some aut) -> st.m <- m1; dump_aut aut
@@ -255,6 +271,12 @@ let oracle toks impl model =
            if r = "T" then (match List.find_opt (fun w -> mref p w && not (mref q w)) (words 4) with
              | Some w -> bad i s ("included_in = true but [" ^ word_show w ^ "] is in the first language only")
              | None -> ())
+       | "ctorstr" ->
+           let has x = List.mem x (String.split_on_char ' ' r) in
+           if not (has "good=T") then bad i s "a constructor / parser handed out a string that is not is_good"
+           else if not (has "mem=T") then bad i s "the string is not a member of its own str.to_re language"
+           else if not (has "ascii=T") then bad i s "Display printed a non-ASCII character"
+           else if r <> mr then bad i s ("result differs from the verified model: " ^ mr)
        | "same" -> if r <> "T T" then bad i s ("the same construction gave a different term: " ^ r)
        | "differ" -> if r <> "F F" then bad i s ("terms that must differ compare equal: " ^ r)
        | "closure" -> if r <> "T" then bad i s ("the yielded set is not closed under char_derivative: " ^ r)
